@@ -6,33 +6,80 @@ import os
 import driver as D
 
 
-def vh_stage(engine, quick=4, thorough=16, extra=(), timeout_q=1500, timeout_t=7200, name=None, crash_ok=False):
+def _last_open_case(outdir, shard):
+    last = None
+    p = os.path.join(outdir, f"{shard}.events.jsonl")
+    if os.path.exists(p):
+        with open(p, errors="replace") as f:
+            for line in f:
+                try:
+                    j = json.loads(line)
+                except Exception:
+                    continue
+                if "begin" in j:
+                    last = j["begin"]
+                elif "end" in j:
+                    last = None
+    return last
+
+
+def run_shard_resilient(engine, shard, nshards, seed, tier, outdir, extra, timeout, max_restarts=25):
+    """Run one shard; when the process dies inside a case (watchdog exit 86/87, abort, signal) put that
+    case on the shard's skip list, remember what happened, and run the shard again."""
+    incidents = []
+    for _ in range(max_restarts + 1):
+        for fn in (f"{shard}.summary.json",):
+            try:
+                os.remove(os.path.join(outdir, fn))
+            except FileNotFoundError:
+                pass
+        r = D.run_vh(engine, shard, nshards, seed, tier, outdir, extra, timeout)
+        if os.path.exists(os.path.join(outdir, f"{shard}.summary.json")):
+            return r, incidents
+        case = _last_open_case(outdir, shard)
+        if case is None or r["rc"] == -999:
+            return r, incidents + [{"rc": r["rc"], "case": case, "stderr": r["stderr"][-600:], "fatal": True}]
+        incidents.append({"rc": r["rc"], "case": case, "stderr": r["stderr"][-600:]})
+        with open(os.path.join(outdir, f"{shard}.skip"), "a") as f:
+            f.write(case + "\n")
+        with open(os.path.join(outdir, f"{shard}.events.jsonl"), "a") as f:
+            f.write(json.dumps({"end": case, "note": "closed by driver after process death"}) + "\n")
+    return r, incidents + [{"rc": r["rc"], "case": None, "stderr": "too many restarts", "fatal": True}]
+
+
+def vh_stage(engine, quick=4, thorough=16, extra=(), timeout_q=1500, timeout_t=7200, name=None, death_is_violation=True):
     def stage(ctx):
+        from concurrent.futures import ThreadPoolExecutor
+
         n = thorough if ctx["thorough"] else quick
         outdir = os.path.join(ctx["outroot"], name or engine)
-        res = D.fan_out(engine, n, ctx["seed"], ctx["tier"], outdir, extra, timeout_t if ctx["thorough"] else timeout_q)
-        sums, dead = D.load_summaries(outdir, res, engine, crash_ok=crash_ok)
+        os.makedirs(outdir, exist_ok=True)
+        to = timeout_t if ctx["thorough"] else timeout_q
+        with ThreadPoolExecutor(max_workers=min(D.NCPU, n)) as ex:
+            futs = [ex.submit(run_shard_resilient, engine, s, n, ctx["seed"], ctx["tier"], outdir, list(extra), to) for s in range(n)]
+            results = [f.result() for f in futs]
+        sums = []
+        m_extra_viol = []
+        m_incon = []
+        for r, incidents in results:
+            for inc in incidents:
+                if inc.get("fatal"):
+                    raise D.HarnessError(f"engine {engine} shard {r['shard']} died rc={inc['rc']} outside any case; stderr tail:\n{inc['stderr']}")
+                if inc["rc"] in (86, 87):
+                    m_incon.append({"kind": "watchdog_time" if inc["rc"] == 86 else "watchdog_memory", "case": inc["case"]})
+                elif death_is_violation:
+                    m_extra_viol.append({"kind": "process_death", "engine": engine, "rc": inc["rc"], "case": inc["case"], "stderr": inc["stderr"][-300:]})
+                else:
+                    m_incon.append({"kind": "process_death", "case": inc["case"], "rc": inc["rc"]})
+            p = os.path.join(outdir, f"{r['shard']}.summary.json")
+            with open(p) as f:
+                sums.append(json.load(f))
         m = D.merge(sums)
-        for d in dead:
-            # crash-tolerant engines: blame the case whose BEGIN has no END
-            last = None
-            p = os.path.join(outdir, f"{d['shard']}.events.jsonl")
-            if os.path.exists(p):
-                with open(p, errors="replace") as f:
-                    for line in f:
-                        try:
-                            j = json.loads(line)
-                        except Exception:
-                            continue
-                        if "begin" in j:
-                            last = j
-                        elif "end" in j:
-                            last = None
-            if d["rc"] == -999:
-                m["inconclusive"].append({"kind": "shard_watchdog", "case": last})
-                m["counters"]["inconclusive.shard_watchdog"] = m["counters"].get("inconclusive.shard_watchdog", 0) + 1
-            else:
-                m["violations"].append({"kind": "process_death", "rc": d["rc"], "stderr": d["stderr"][-600:], "case": last})
+        m["violations"].extend(m_extra_viol)
+        for inc in m_incon:
+            m["inconclusive"].append(inc)
+            k = "inconclusive." + inc["kind"]
+            m["counters"][k] = m["counters"].get(k, 0) + 1
         return m
 
     stage.__name__ = name or engine
@@ -115,6 +162,22 @@ register(
     "assemble(disassemble(x,v))==x for v=0,1,2; fixed integer mode: parse_sexp(print(from_clvm(x))) converts back to x and assemble(print(from_clvm(x)))==x. Distinct non-trivial = distinct (value, route) that round-tripped",
     assumptions=COMMON_ASSUME,
     min_nontrivial=1000,
+)
+
+
+import pinned  # noqa: E402
+
+register(
+    "C01",
+    [vh_stage("c01", 16, 16), pinned.stage_factory("pinned_c01.json", "C01")],
+    "A: parameter sweep N=1..40 x {flat, dotted, nested} x 4 bodies compiled in all six dialects and run on argument trees with pairwise distinct leaves; B: random well-scoped programs from the typed AST generator "
+    "(defun, defun-inline, defconstant, defconst, defmacro, let, let*, assign/-inline/-lambda with destructuring, lambda with captures, &rest tails, (@ n pat), nested/dotted params, nested mod, if/list/qq, operators, literals) "
+    "rendered in two (quick) / six (thorough) dialects, compiled as the CLI does without -O, run by clvmr on 5 argument trees and compared with the reference interpreter whenever it returns a value. "
+    "Non-trivial/distinct = distinct program (hash of its text) using a binding/abstraction construct, compared on >=1 argument tree, with >=2 different reference values across its trees",
+    assumptions=COMMON_ASSUME + ["the reference interpreter (harness/src/refi.rs) implements the documented source-level meaning (DESIGN.md appendix A); it delegates every operator to clvmr",
+                                 "the random workload is steered away from the feature combinations of the listed known findings; those are re-established by pinned witnesses through the real run/brun binaries"],
+    min_nontrivial=50,
+    needs=("bins",),
 )
 
 
